@@ -15,11 +15,13 @@ inductive Err where
   | io       -- an error wrapping the injected reader/writer cause
   | skipped  -- errSkippedPacket (internal)
   | pidNotFound | pidExists | pcrInvalid
+  | parser   -- an error wrapping the failing custom PacketsParser's error
   deriving DecidableEq, Repr, Inhabited
 
 def Err.show : Err → String
   | .other => "other" | .eof => "eof" | .sync => "sync" | .io => "io" | .skipped => "skipped"
   | .pidNotFound => "pidNotFound" | .pidExists => "pidExists" | .pcrInvalid => "pcrInvalid"
+  | .parser => "parser"
 
 /-- Outcome of a Go call: a value, a returned error, or a run-time panic. -/
 inductive Res (α : Type) where
@@ -106,6 +108,10 @@ def dump : P Bytes := fun i =>
   else .ok (i.bs.drop i.off.toNat, { i with off := i.bs.length })
 end It
 
+/-- run `p` only when the flag is set (Go: `if flag { x, err = parse… }`) -/
+def optP {α} (c : Bool) (p : P α) : P (Option α) :=
+  if c then do let a ← p; pure (some a) else pure none
+
 /-! ### Model of `astikit.BitsWriter` at field-group level
 
 A run of `Write(bool)`, `WriteN(v, n)`, `Write(uintN)` calls whose widths add up to a whole number of
@@ -164,7 +170,7 @@ def Res.show {α} (f : α → String) : Res α → String
 /-- errors seen through the public API: only the classes callers can tell apart -/
 def Err.pub : Err → String
   | .eof => "eof" | .io => "io" | .pidNotFound => "pidNotFound" | .pidExists => "pidExists"
-  | .pcrInvalid => "pcrInvalid" | _ => "other"
+  | .pcrInvalid => "pcrInvalid" | .parser => "parser" | _ => "other"
 
 def Res.showPub {α} (f : α → String) : Res α → String
   | .ok a => "ok:" ++ f a
@@ -181,6 +187,9 @@ def jnat (n : Nat) : String := toString n
 def jint (n : Int) : String := toString n
 def jbool (b : Bool) : String := if b then "true" else "false"
 def jhex (bs : Bytes) : String := jstr (hex bs)
+def jopt {α} (f : α → String) : Option α → String
+  | none => "null"
+  | some a => f a
 
 /-! ### PRNG: splitmix64, one state threaded through every generator -/
 
